@@ -299,7 +299,7 @@ func asIRI(val *fastjson.Value) (IRI, bool) {
 		return NilIRI, true
 	}
 	s := strings.Trim(val.String(), `"`)
-	u, err := url.ParseRequestURI(s)
+	u, err := url.Parse(s)
 	if err == nil && len(u.Scheme) > 0 && len(u.Host) > 0 {
 		// try to see if it's an IRI
 		return IRI(s), true
